@@ -39,7 +39,11 @@ def h_enc(eng, case):
     schema = mg.schema_of(cls)
     plan = mg.plans(schema)[case['plan']]
     vals = mg.make_values(eng, schema, plan)
-    m = mg.build(cls, schema, vals)
+    mg.FORMS[0], mg.FORMS[1] = bool(case.get('forms')), 0
+    try:
+        m = mg.build(cls, schema, vals)
+    finally:
+        mg.FORMS[0] = False
     try:
         n = m.encoded_length()
         wire = m.encode()
@@ -161,6 +165,9 @@ def cases(tier, seed):
         base = {'src': src, 'model': key}
         if src == 'gen':
             base['seed'] = seed
+        if src != 'gen' or key < 6:
+            # the all-fixed plan with byte strings and names handed over in their other accepted representations
+            cs.append(('enc', dict(base, plan=0, forms=True)))
         for p, plan in enumerate(mg.plans(schema)):
             if sum(1 for v in plan.values() if v == 'sym') >= 2:
                 # two symbolic leaves: product of their path counts - start early and split over the workers
